@@ -529,6 +529,7 @@ def run(ctx):
     assumptions = ["lattice coordinates are small integers, so every midpoint is a dyadic rational "
                    "and the float computation is exact; flatness compared with 1e-9 relative slack",
                    "flatness values so small that flat^2 underflows are not covered"]
+    coverage["rule"] += ('; 480 node lists whose first halving inserts a node equal in value to an existing node (hairpins 9 : -4 : 1 : 0 at the end or the start node, four outer handles, alone / first / last / middle), points as lists and as tuples, flatness 0.25, 0.05, 1.0')
     return {"part": part, "coverage": coverage, "assumptions": assumptions}
 
 
